@@ -152,6 +152,7 @@ class sptensor:
             assert (
                 vals.shape[0] == subs.shape[0]
             ), "Number of subscripts and values must be equal"
+            assert np.all(subs >= 0), "Subscripts must be non-negative"
             assert subs.shape[1] == len(shape) and np.all(
                 (np.max(subs, axis=0) + 1) <= shape
             ), (
